@@ -23,8 +23,8 @@ EXPLANATION = (
 RULE_TEXT = 'one obligation per required attribute, per guard clause (present / raises / dominates / scans), per must-call site'
 ASSUMPTIONS = ['guards are unconditional statements of the functions, so reachability through editing histories adds nothing once dominance is shown',
                'decides presence/class/dominance of the guards, not every way of constructing an inconsistent model']
-ENGINES = ['pyindex', 'paths']
-TECHNIQUE = 'static analysis (ast): guard obligations (presence, exception class, dominance) by path enumeration; must-call-before; class-constant tables'
+ENGINES = ['pyindex', 'paths', 'effects']
+TECHNIQUE = 'static analysis (ast): guard obligations (presence, exception class, dominance) by path enumeration; must-call-before; class-constant tables; owner-link clearing obligations of the delete operations'
 
 EXC = 'pydbml.exceptions:'
 REQUIRED = {
